@@ -762,19 +762,21 @@ var gotmpls = []gotmpl{
 
 // A maker produces one random op.
 type maker struct {
-	kind string
-	make func(r *rand.Rand) *op
+	kind  string
+	cat   string
+	first bool // first maker of its category in the list
+	make  func(r *rand.Rand) *op
 }
 
 func (sp *worldSpec) makers() []maker {
 	var out []maker
 	for i := range tmpls {
 		t := &tmpls[i]
-		out = append(out, maker{"sl:" + t.kind, func(r *rand.Rand) *op { return sp.instantiate(t, r) }})
+		out = append(out, maker{kind: "sl:" + t.kind, cat: t.cat, make: func(r *rand.Rand) *op { return sp.instantiate(t, r) }})
 	}
 	for i := range gotmpls {
 		t := &gotmpls[i]
-		out = append(out, maker{"go:" + t.kind, func(r *rand.Rand) *op {
+		out = append(out, maker{kind: "go:" + t.kind, cat: t.cat, make: func(r *rand.Rand) *op {
 			classes := strings.Fields(t.classes)
 			for try := 0; ; try++ {
 				xs := sp.classMembers(classes[r.Intn(len(classes))])
@@ -797,6 +799,14 @@ func (sp *worldSpec) makers() []maker {
 				return o
 			}
 		}})
+	}
+	seen := map[string]bool{}
+	for i := range out {
+		if _, ok := catWeight[out[i].cat]; !ok {
+			panic("no weight for category " + out[i].cat)
+		}
+		out[i].first = !seen[out[i].cat]
+		seen[out[i].cat] = true
 	}
 	return out
 }
